@@ -134,6 +134,25 @@ def random_spec(rnd):
     return (shape, rnd.choice('AV'), tuple(ops))
 
 
+def structured_spec(rnd):
+    """fill / rebuild / drain: several values under one subscription key and registrations sharing its provided
+    interface, rebuild() somewhere, then everything removed one by one (the bookkeeping must survive every order)"""
+    n = rnd.randint(2, 3)
+    shape = common.random_shape(rnd, n, 2)
+    p = rnd.randrange(n)
+    req = tuple(rnd.randrange(n + 1) for _ in range(rnd.choice([0, 1, 1, 2])))
+    req2 = tuple(rnd.randrange(n + 1) for _ in range(rnd.choice([0, 1, 2])))
+    fill = [('subscribe', req, p, '', v) for v in rnd.sample([0, 2, 3], rnd.randint(2, 3))]
+    fill += [('register', rq, p, nm, 3) for rq, nm in rnd.sample([(req, ''), (req2, 'a'), (req, 'a')], rnd.randint(0, 2))]
+    rnd.shuffle(fill)
+    drain = [('unsubscribe' if o[0] == 'subscribe' else 'unregister',) + o[1:] for o in fill]
+    rnd.shuffle(drain)
+    ops = list(fill)
+    ops.insert(rnd.randint(1, len(ops)), ('rebuild',))
+    ops += drain[:rnd.randint(1, len(drain))]
+    return (shape, rnd.choice('AV'), tuple(ops))
+
+
 def replay(spec):
     bad, _ = play(spec)
     for sig, what in bad[:8]:
@@ -142,7 +161,7 @@ def replay(spec):
 
 
 def run(ctx):
-    ctx.rule = ('random histories of <=7 register/unregister/subscribe/unsubscribe/rebuild/register(None) calls over 3 keys '
+    ctx.rule = ('random histories of <=7 (and structured fill/rebuild/drain histories of <=11) register/unregister/subscribe/unsubscribe/rebuild/register(None) calls over 3 keys '
                 '(arity 0..2, None required, handlers), equal-but-distinct values, either flavour, with a deriving registry; after '
                 'every step listings, registered(), subscribed(), all lookups and subscriptions compared with the dictionary '
                 'replay of the history; finally replay of the listings into a fresh registry; distinct = histories')
@@ -151,7 +170,7 @@ def run(ctx):
     for t in range(trials):
         if ctx.out_of_time() or ctx.too_many():
             return
-        spec = random_spec(ctx.rnd)
+        spec = random_spec(ctx.rnd) if t % 3 else structured_spec(ctx.rnd)
         bad, n = play(spec)
         ctx.evaluations += n
         ctx.distinct.add(spec)
